@@ -133,9 +133,15 @@ func factoryCode() []byte {
 }
 
 // childAddr is the CREATE2 address of the factory's child for a salt.
-func childAddr(salt uint64) common.Address {
-	return crypto.CreateAddress2(factoryAddr, common.BigToHash(new(big.Int).SetUint64(salt)), crypto.Keccak256(childInit()))
-}
+func childAddr(salt uint64) common.Address { return childAddrs[salt] }
+
+var childAddrs = func() (out [nSalts]common.Address) {
+	h := crypto.Keccak256(childInit())
+	for s := range out {
+		out[s] = crypto.CreateAddress2(factoryAddr, common.BigToHash(new(big.Int).SetUint64(uint64(s))), h)
+	}
+	return
+}()
 
 func word(v uint64) []byte { return common.BigToHash(new(big.Int).SetUint64(v)).Bytes() }
 
@@ -145,8 +151,21 @@ func slotKey(v uint64) common.Hash { return common.BigToHash(new(big.Int).SetUin
 // churnSlots (up to churnSlots+3) are only ever read.
 const churnSlots = 8
 
-// directedContracts adds the storage workload contracts to a world. The child for salt 0 is part
-// of the genesis state (with storage), the child for salt 1 does not exist yet.
+// nSalts: children 0 and 1 are used by the randomly drawn steps, 2..9 by planned histories
+// (the storage script: 2 and 3; the long chains: all eight), which random steps must not disturb.
+const nSalts = 10
+
+func isChild(a common.Address) bool {
+	for s := uint64(0); s < nSalts; s++ {
+		if a == childAddr(s) {
+			return true
+		}
+	}
+	return false
+}
+
+// directedContracts adds the storage workload contracts to a world. The children for even salts
+// are part of the genesis state (with storage), those for odd salts do not exist yet.
 func directedContracts(w *txgen.World) {
 	st := map[common.Hash]common.Hash{}
 	for s := uint64(1); s <= 3; s++ {
@@ -158,8 +177,10 @@ func directedContracts(w *txgen.World) {
 	w.Accounts[churnAddr] = &txgen.Account{Balance: big.NewInt(1000), Nonce: 1, Code: churnCode(), Storage: st}
 	w.Accounts[ballastAddr] = &txgen.Account{Balance: new(big.Int), Nonce: 1, Code: ballastCode()}
 	w.Accounts[factoryAddr] = &txgen.Account{Balance: big.NewInt(100000), Nonce: 1, Code: factoryCode()}
-	w.Accounts[childAddr(0)] = &txgen.Account{Balance: big.NewInt(500), Nonce: 1, Code: childRuntime(),
-		Storage: map[common.Hash]common.Hash{slotKey(0): slotKey(42), slotKey(2): slotKey(5), slotKey(3): slotKey(7)}}
+	for salt := uint64(0); salt < nSalts; salt += 2 {
+		w.Accounts[childAddr(salt)] = &txgen.Account{Balance: big.NewInt(500), Nonce: 1, Code: childRuntime(),
+			Storage: map[common.Hash]common.Hash{slotKey(0): slotKey(42), slotKey(2): slotKey(5), slotKey(3): slotKey(7)}}
+	}
 }
 
 // ---------------------------------------------------------------- call data
@@ -292,7 +313,7 @@ func readStory(bi *types.BlockInfo) blockStory {
 						s.Rebirths++
 					}
 				}
-			case t == topicKill && (l.Address == childAddr(0) || l.Address == childAddr(1)):
+			case t == topicKill && isChild(l.Address):
 				s.Killed = append(s.Killed, l.Address)
 				s.Events = append(s.Events, storyEvent{"kill", l.Address})
 				killed[l.Address] = true
@@ -324,34 +345,34 @@ func storageScript() *longPlan {
 	ph := func(h, from int, op string, salt uint64) { p.add(h, longEvent{From: from, Op: op, Salt: salt}) }
 	never := uint64(coldBase + 0x10)
 	ch(1, 0, "churn-set", churnRec{coldBase, 11, true}, churnRec{coldBase + 1, 12, true}, churnRec{coldBase + 2, 13, true})
-	ph(1, 1, "create", 1)
-	ph(1, 2, "poke", 0)
-	ph(2, 0, "kill", 0) // genesis storage: slot0 = 42
-	ph(2, 0, "create", 0)
-	ph(2, 0, "poke", 0)
+	ph(1, 1, "create", 3)
+	ph(1, 2, "poke", 2)
+	ph(2, 0, "kill", 2) // genesis storage: slot0 = 42
+	ph(2, 0, "create", 2)
+	ph(2, 0, "poke", 2)
 	ch(2, 1, "churn-clear", churnRec{coldBase, 0, true})
 	ch(2, 1, "churn-read", churnRec{coldBase + 1, 0, false}, churnRec{never, 0, false})
 	ch(3, 2, "churn-read", churnRec{coldBase, 0, false})
-	ph(3, 1, "kill", 1)
-	ph(4, 1, "create", 1) // re-created one block after its destruction
-	ph(4, 1, "poke", 1)
+	ph(3, 1, "kill", 3)
+	ph(4, 1, "create", 3) // re-created one block after its destruction
+	ph(4, 1, "poke", 3)
 	ch(4, 0, "churn-clear", churnRec{presetBase, 0, true})
 	ch(4, 0, "churn-set", churnRec{coldBase, 21, true})
 	ch(5, 2, "churn-read", churnRec{presetBase, 0, false})
-	ph(5, 0, "kill", 0) // storage written in block 2 (a diff layer)
-	ph(5, 0, "create", 0)
-	ph(5, 0, "poke", 0)
+	ph(5, 0, "kill", 2) // storage written in block 2 (a diff layer)
+	ph(5, 0, "create", 2)
+	ph(5, 0, "poke", 2)
 	ch(6, 1, "churn-clear", churnRec{coldBase + 1, 0, true})
 	ch(6, 1, "churn-read", churnRec{coldBase + 1, 0, false})
-	ph(6, 0, "clear", 0)
-	ph(6, 0, "poke", 0)
-	ph(7, 2, "kill", 1)
-	ph(7, 2, "create", 1)
-	ph(7, 2, "kill", 1)
-	ph(7, 2, "create", 1)
-	ph(7, 2, "poke", 1)
+	ph(6, 0, "clear", 2)
+	ph(6, 0, "poke", 2)
+	ph(7, 2, "kill", 3)
+	ph(7, 2, "create", 3)
+	ph(7, 2, "kill", 3)
+	ph(7, 2, "create", 3)
+	ph(7, 2, "poke", 3)
 	ch(8, 0, "churn-read", churnRec{coldBase, 0, false}, churnRec{coldBase + 1, 0, false}, churnRec{coldBase + 2, 0, false}, churnRec{presetBase, 0, false}, churnRec{never, 0, false})
-	ph(9, 1, "poke", 0)
-	ph(9, 1, "poke", 1)
+	ph(9, 1, "poke", 2)
+	ph(9, 1, "poke", 3)
 	return p
 }
